@@ -54,6 +54,9 @@ type Plan struct {
 	Oneshot   []OneshotFault       `json:"oneshot,omitempty"`
 	Sched     []int                `json:"sched,omitempty"`
 	RealPeers bool                 `json:"real_peers,omitempty"`
+	// StdoutFailAt > 0: git-sizer's stdout accepts StdoutFailAt-1 bytes and
+	// then fails every write ("no space left on device"); 0 = no fault.
+	StdoutFailAt int `json:"stdout_fail_at,omitempty"`
 }
 
 func (p *Plan) Peer(name string) *PeerPlan {
